@@ -103,6 +103,14 @@ def case(ctx, rng, idx, state):
                 nK = 2
             fft = np.array([int(x) for x in rng.integers(1, 3, size=3)])
             grid = Grid(system, NKdiv=div, NKFFT=fft)
+            if idx % 8 == 5:
+                # tetrahedral grid: the K-points are tetrahedra (refined by KpointBZtetra.divide)
+                from wannierberri.grid import GridTetra
+                with env.quiet():
+                    grid = GridTetra(system, length=float(rng.uniform(2.5, 6)), NKFFT=fft.copy())
+                    nK = len(grid.get_K_list())
+                div = "GridTetra"
+                ctx.count("tetrahedral_grid_cases")
             niter = int(rng.integers(0, 3))
             Ef = runkit.fermi_grid(rng, system, n=4)
             calcs = runkit.make_calculators(rng, system, Ef, nmax=2, allow_tetra=False, pool=["CumDOS", "DOS", "AHC", "Ohmic_surf"])
@@ -149,7 +157,7 @@ def case(ctx, rng, idx, state):
                     ctx.count("nonnested_wait_pairs", st["nonnested"])
                     ctx.count("wait_calls", st["nwait"])
                     nsched += 1
-                    ctx.nontrivial(("grid", tuple(div.tolist()), tuple(fft.tolist()), ncpu, niter, order, seed, tuple(sorted(calcs))))
+                    ctx.nontrivial(("grid", (div if isinstance(div, str) else tuple(div.tolist())), tuple(fft.tolist()), ncpu, niter, order, seed, tuple(sorted(calcs))))
             ctx.count("grid_cases")
             ctx.count("exhaustive_cases", int(exhaustive))
             ctx.sample(dict(wit, n_Kpoints=nK, schedules=nsched, exhaustive_over_completion_orders=exhaustive, first_orders=orders[:3]))
